@@ -741,6 +741,33 @@ def _declared_name_of(prog, ci, e: ast.AST, elem_ok) -> bool:
     return False
 
 
+def _xpath_steps(path: str) -> List[Tuple[str, List[str]]]:
+    """[(tag, [predicate, ...])] of an ElementTree path (the subset ElementTree implements)."""
+    steps: List[Tuple[str, List[str]]] = []
+    i, n = 0, len(path)
+    tag, preds = "", []
+    while i < n:
+        ch = path[i]
+        if ch == "/":
+            steps.append((tag, preds))
+            tag, preds = "", []
+            i += 1
+        elif ch == "[":
+            j = i + 1
+            quote = None
+            while j < n and (quote is not None or path[j] != "]"):
+                if path[j] in "'\"":
+                    quote = None if quote == path[j] else (path[j] if quote is None else quote)
+                j += 1
+            preds.append(path[i + 1:j])
+            i = j + 1
+        else:
+            tag += ch
+            i += 1
+    steps.append((tag, preds))
+    return steps
+
+
 def rule_lookup_provenance(ctx, rep: Report, rid="Q5"):
     prog = ctx.prog
     ci = prog.cls("XMLDocParser")
@@ -756,6 +783,19 @@ def rule_lookup_provenance(ctx, rep: Report, rid="Q5"):
             f"{queries.get('find')}", f"{ci.mod.rel}:{gm.lineno}")
     rep.add(rid, "member query selects members by the *method* name", queries.get("findall", ([], ""))[0] == [ps[2]],
             f"{queries.get('findall')}", f"{ci.mod.rel}:{gm.lineno}")
+    # the shape of the index query: Doxygen lists a wrapped type under the kind it was *declared* with (class, struct, union,
+    # interface ...), the dialect has only `class`: the compound is selected by its name alone
+    for c in walk_no_nested(gm):
+        if isinstance(c, ast.Call) and isinstance(c.func, ast.Attribute) and c.func.attr == "find" and c.args and isinstance(c.args[0], ast.JoinedStr):
+            lit = "".join(v.value if isinstance(v, ast.Constant) else "\x00" for v in c.args[0].values)
+            steps = [x for x in _xpath_steps(lit) if x[0] not in (".", "")]
+            preds = [p.replace(" ", "") for _, ps_ in steps for p in ps_]
+            ok = len(steps) == 1 and steps[0][0] in ("*", "compound") and preds in (["name='\x00'"], ['name="\x00"'])
+            extra = [p for p in preds if not p.startswith("name=")]
+            rep.add(rid, "index query selects the compound by its name alone (whatever kind Doxygen filed it under)", ok,
+                    f"query {unparse(c.args[0])[:70]}: step(s) {[t for t, _ in steps]}, further condition(s) {extra}: a wrapped type that Doxygen lists "
+                    f"under another kind or position (a C++ `struct` is kind=\"struct\") is not found and all its bindings get an empty docstring",
+                    f"{ci.mod.rel}:{c.lineno}")
     ff = prog.method("XMLDocParser", "filter_member_defs")
     fps = func_params(ff)[1:]            # candidates, given names
     names_p = fps[1]
